@@ -10,6 +10,7 @@ require (
 require (
 	github.com/golang/snappy v0.0.3 // indirect
 	github.com/pierrec/lz4/v4 v4.0.3 // indirect
+	github.com/rs/zerolog v1.20.0 // indirect
 )
 
 replace github.com/datastax/go-cassandra-native-protocol => /repo
